@@ -225,7 +225,7 @@ func init() {
 		ID:    "C14",
 		Title: "results do not depend on which Go type carries a number",
 		Rule: "for every expression form of the menu (all binary arithmetic operators and comparators, equality inside containers, truthiness, type, the numeric and ordering functions, unary signs, every integer-argument position) and every value (pair) of the value alphabet, " +
-			"the number leaves of the document are carried by every Go numeric kind able to hold the value exactly - all 14 single kinds and all 14x14 ordered pairs of kinds for two-leaf forms (thorough: the boundaries of every fixed-width kind as values, and all 14x14x14 ordered triples of kinds for three-leaf forms) - and the observation must equal, by value, the observation of the all-json.Number configuration; " +
+			"the number leaves of the document are carried by every Go numeric kind able to hold the value exactly - all 14 single kinds and all 14x14 ordered pairs of kinds for two-leaf forms, and records of 12..40 elements with tied keys carried by every pair of kinds through the ordering functions (thorough: the boundaries of every fixed-width kind as values, and all 14x14x14 ordered triples of kinds for three-leaf forms) - and the observation must equal, by value, the observation of the all-json.Number configuration; " +
 			"non-trivial = a non-null, non-empty, non-error baseline outcome; distinct_nontrivial counts distinct such outcomes",
 		Phases: []core.Phase{{Name: "carriers", Build: "instr", Fn: c14Run}},
 		Judge:  c14Judge,
@@ -348,6 +348,26 @@ func c14Run(r *core.Run) {
 			}
 		}
 	}
+	// long arrays with ties: ordering functions switch algorithm with the length, and must not switch it with the carrier
+	for _, n2 := range []int{12, 13, 14, 16, 24, 40} {
+		for pi := range c14TiePatterns {
+			for _, ka := range c14Kinds {
+				n++
+				if !r.Mine(n) {
+					continue
+				}
+				r.Add("states", 1)
+				for _, kb := range c14Kinds {
+					for _, e := range c14TieExprs {
+						r.Begin(map[string]any{"expr": e, "doc": fmt.Sprintf("ties n=%d pattern=%d %s %s", n2, pi, ka, kb)})
+						if v := c14Ties(r, e, n2, pi, ka, kb); v != nil {
+							r.Violate(v)
+						}
+					}
+				}
+			}
+		}
+	}
 	for _, f := range forms {
 		for _, vx := range values {
 			n++
@@ -384,7 +404,53 @@ func c14Run(r *core.Run) {
 	}
 }
 
+// tie patterns: key of element i is pattern[i % len]
+var c14TiePatterns = [][]string{{"2", "1"}, {"1", "1", "0"}, {"3", "2", "1", "2"}, {"0.5", "0.5", "0.25"}, {"1"}}
+var c14TieExprs = []string{"sort_by(@, &k)[*].i", "max_by(@, &k).i", "min_by(@, &k).i", "sort(@[*].k)", "sort_by(@, &k)[*].k", "@[?k == max(@[*].k)] | [0].i", "sort_by(@, &(k * `2`))[*].i"}
+
+// c14Ties: an array of n records whose keys follow a tie pattern, even positions carried by kind ka, odd ones by kb.
+func c14Ties(r *core.Run, expr string, n, pattern int, ka, kb string) *core.Violation {
+	pat := c14TiePatterns[pattern]
+	mk := func(k1, k2 string) ([]any, bool) {
+		out := make([]any, n)
+		for i := range out {
+			kind := k1
+			if i%2 == 1 {
+				kind = k2
+			}
+			v, ok := carry(kind, pat[i%len(pat)])
+			if !ok {
+				return nil, false
+			}
+			out[i] = map[string]any{"k": v, "i": i}
+		}
+		return out, true
+	}
+	d, ok := mk(ka, kb)
+	if !ok {
+		return nil
+	}
+	base, _ := mk("json.Number", "json.Number")
+	c := prepareImplCached(expr)
+	ob, o := c.run(base), c.run(d)
+	r.Eval(ob)
+	r.Add("evaluations", 1)
+	r.Add("transitions", 1)
+	if ob.Key() == o.Key() {
+		return nil
+	}
+	return &core.Violation{Sig: "C14/ties " + expr + "/" + c14KindClass(ka) + "," + c14KindClass(kb), Desc: fmt.Sprintf("Search(%q) on %d records with keys %v carried by %s (even positions) and %s (odd positions)", expr, n, pat, ka, kb),
+		Point:    map[string]any{"form": "ties", "expr": expr, "n": fmt.Sprint(n), "pattern": fmt.Sprint(pattern), "kx": ka, "ky": kb, "doc": fmt.Sprintf("%d records, keys %v, carried by %s/%s", n, pat, ka, kb)},
+		Expected: "the json.Number outcome: " + ob.Short(), Actual: o.Short()}
+}
+
 func c14Judge(r *core.Run, phase string, pt map[string]any) *core.Violation {
+	if pstr(pt, "form") == "ties" {
+		var n, p int
+		fmt.Sscan(pstr(pt, "n"), &n)
+		fmt.Sscan(pstr(pt, "pattern"), &p)
+		return c14Ties(r, pstr(pt, "expr"), n, p, pstr(pt, "kx"), pstr(pt, "ky"))
+	}
 	if pstr(pt, "form") == "triple" {
 		return c14Triple(r, pstr(pt, "expr"), pstr(pt, "kx"), pstr(pt, "ky"), pstr(pt, "kz"), pstr(pt, "vx"), pstr(pt, "vy"), pstr(pt, "vz"))
 	}
